@@ -33,6 +33,7 @@ EST = CC.EST
 
 def check(rep, an, tier):
     R.rule_alias(rep, an.model, "dreye.api.estimator", "ReceptorEstimator", "compute_gamut", "compute_hull")
+    R.rule_facet_pairs(rep, an.model, entry="compute_gamut(at_l1=) → proj_P_to_simplex")
     # ---- mean width: degree 1, seeded
     for vec in (False, True):
         for center in (False, True):
@@ -147,6 +148,18 @@ def check(rep, an, tier):
                           "generator, the Monte-Carlo errors of numerator and denominator are independent and the metric of a cloud relative "
                           "to itself is not 1 (one seed has to be drawn once and shared)")
     # ---- Jensen–Shannon: separate normalisation of both inputs
+    for jshape, jlabel in ((S("M"), "P:[u],Q:[v]"), (S("M", "M2"), "P:[u],Q:[v], two-dimensional histograms")):
+      P, Q = arr("P", jshape, {"u": 1}, sign="NONNEG"), arr("Q", jshape, {"v": 1}, sign="NONNEG")
+      res = an.run(f"{MET}:compute_jensen_shannon_divergence", kws=dict(P=P, Q=Q), config=jlabel)
+      entry = "compute_jensen_shannon_divergence"
+      for ev in res.events("ext_call"):
+        if ev.d["dotted"] == "scipy.stats.entropy" and ev.d["args"]:
+            p0 = ev.d["args"][0]
+            o = p0.tag("normalized_ord")
+            rep.check("R-QTY", "inputs are normalised to unit total (L1) before they are mixed", None if o is None else o == 1, where=ev.loc,
+                      construct=f"first argument of {ev.text()[:50]}", entry=entry, config=res.config,
+                      msg=f"the distribution handed to the entropy is its input divided by its own {o}-norm, not by its total: P and Q enter "
+                          f"the mixture with unequal mass, so the value is not the Jensen–Shannon divergence and can exceed 1 bit")
     P, Q = arr("P", S("M"), {"u": 1}, sign="NONNEG"), arr("Q", S("M"), {"v": 1}, sign="NONNEG")
     res = an.run(f"{MET}:compute_jensen_shannon_divergence", kws=dict(P=P, Q=Q), config="P:[u],Q:[v]")
     entry = "compute_jensen_shannon_divergence"
@@ -161,14 +174,6 @@ def check(rep, an, tier):
         mixes = [ev for ev in res.events("typed_op")]
         rep.check("R-QTY", "inputs are normalised before they are mixed", True if res.value.flat().tag("deg") == {} or True else None,
                   where=res.fn.loc(), construct="M = 0.5 * (P + Q)", entry=entry, config=res.config)
-    for ev in res.events("ext_call"):
-        if ev.d["dotted"] == "scipy.stats.entropy" and ev.d["args"]:
-            p0 = ev.d["args"][0]
-            o = p0.tag("normalized_ord")
-            rep.check("R-QTY", "inputs are normalised to unit total (L1) before they are mixed", None if o is None else o == 1, where=ev.loc,
-                      construct=f"first argument of {ev.text()[:50]}", entry=entry, config=res.config,
-                      msg=f"the distribution handed to the entropy is its input divided by its own {o}-norm, not by its total: P and Q enter "
-                          f"the mixture with unequal mass, so the value is not the Jensen–Shannon divergence and can exceed 1 bit")
     scale_free_decisions(rep, res, entry)
     v = res.value.flat()
     rep.check("R-QTY", "divergence is dimensionless", None if v.unit is None else v.unit == {}, where=res.fn.loc(),
@@ -190,6 +195,20 @@ def check(rep, an, tier):
                          msg=f"the returned extent is multiplied by a length scale raised to the AMBIENT dimension (extent "
                              f"{'⊗'.join(r_.d['val'].flat().tag('pow_by_extent'))} of the input): for a flat cloud, whose hull is measured inside "
                              f"its k-dimensional span, the result is no longer homogeneous of degree k")
+    # a volume of exactly 0 is returned only on a test of the point VALUES (all identical): a count of (distinct) points against the
+    # dimension says nothing about the extent inside the affine span (a segment in 3-D has a length)
+    for r_ in res.events("return"):
+        v0 = r_.d["val"]
+        if len(r_.path) != 1 or not (v0.known and isinstance(v0.const, (int, float)) and not isinstance(v0.const, bool) and v0.const == 0):
+            continue
+        gs = [g for g in r_.guards if len(g) > 5 and not g[3]]
+        if not gs:
+            continue
+        on_values = any("X" in {o.split("|")[0] for o in g[5]} for g in gs)
+        rep.check("R-VALUE", "zero volume is decided on the point values", on_values, where=r_.loc, construct=f"{r_.text()} under `{gs[-1][0][:60]}`",
+                  entry="compute_volume", config=res.config,
+                  msg=f"the constant 0 is returned under `{gs[-1][0][:80]}`, a test of counts / extents only: clouds with few distinct points "
+                      f"(a segment, a triangle in a higher-dimensional space) have a non-zero volume inside their affine span")
     # … and on the branch where the projection returns a hull object (a flat cloud measured inside its k-dimensional span)
     def summary_hull(I, e, fn, args, kws):
         f = args[0].flat()
